@@ -1,7 +1,7 @@
 (* C02 (null move): passing the turn leaves the absolute board and the castling rights untouched, clears the
    en-passant target and resets the clock, exactly as Rules.pass_turn says. *)
 From Coq Require Import NArith ZArith List Bool Lia.
-From Rawr Require Import Consts Bits Magic Position MoveGen MakeMove Rules Abs BitsFacts FlipFacts.
+From Rawr Require Import Consts Bits Magic Position MoveGen MakeMove Rules Abs BitsFacts FlipFacts MagicFacts.
 Import ListNotations.
 Local Open Scope N_scope.
 
@@ -63,3 +63,8 @@ Proof.
   unfold makenull, set_clocks_ep_rights, flip. cbn.
   destruct (turn p); cbn; reflexivity.
 Qed.
+
+(* the slider attacks used by the position-level model are the magic lookups of the code *)
+Lemma sliders_exact sq occ :
+  bishop_moves sq occ = batt sq occ /\ rook_moves sq occ = ratt sq occ /\ queen_moves sq occ = qatt sq occ.
+Proof. unfold batt, ratt, qatt, queen_moves. rewrite bishop_moves_exact, rook_moves_exact. auto. Qed.
